@@ -6,3 +6,4 @@ import DvidModel.Props.C05
 import DvidModel.Props.C18
 import DvidModel.Props.C07
 import DvidModel.Props.C12
+import DvidModel.Props.C04
